@@ -1052,6 +1052,9 @@ func (w *Walker) applyCmp(p *PState, xv ssa.Value, op token.Token, yv ssa.Value,
 	}
 	switch {
 	case isNilConst(y):
+		if isNilConst(x) {
+			return op != token.NEQ
+		}
 		f := p.facts[x]
 		switch op {
 		case token.EQL:
